@@ -113,6 +113,12 @@ OBSERVERS = {
                                                       S('finalizer', {'$fn': 'c05_fin_stats_cb', 'env': True})],
                              'positions': [50, 50, 50]},
     'validate': S('validate'),
+    # documented counter options must not change what is persisted
+    'dump_nocounters': S('dump_to_path', {'$path': 'dumpnc'}, counters={'datapackage-bytes': None, 'resource-bytes': None,
+                                                                        'resource-hash': None}),
+    'dump_zip_nocounters_json': S('dump_to_zip', {'$path': 'outnc.zip'}, format='json',
+                                  counters={'datapackage-bytes': None, 'resource-bytes': None, 'resource-hash': None,
+                                            'datapackage-hash': None}),
     # two file dumpers of different formats in one pipeline, both seeing the same resources
     'dump_csv+dump_json': {'op': 'flow', 'steps': [S('dump_to_path', {'$path': 'dump2c'}),
                                                     S('dump_to_path', {'$path': 'dump2j'}, format='json')],
@@ -289,6 +295,8 @@ def decode_for(obs):
         'checkpoint': lambda e, o: d_stream(e, o, 'checkpoints/cp%d/stream.ndjson' % OBS_POS),
         'finalizer': d_fin, 'update_stats': lambda e, o: ('stats', o.get('stats')), 'validate': lambda e, o: None,
         'dump+finalizer_stats': lambda e, o: ('finstats', [x[1] for x in o['log'] if x[0] == 'finstats']),
+        'dump_nocounters': lambda e, o: d_path(e, o, 'dumpnc'),
+        'dump_zip_nocounters_json': lambda e, o: d_zip(e, o, 'outnc.zip'),
         'dump_csv+dump_json': lambda e, o: ('multi', [d_path(e, o, 'dump2c'), d_path(e, o, 'dump2j')]),
         'dump_json+dump_zip': lambda e, o: ('multi', [d_path(e, o, 'dump3j'), d_zip(e, o, 'out3.zip')]),
     }[obs]
@@ -296,7 +304,8 @@ def decode_for(obs):
 
 def expected_capture(obs, P):
     """What the observer must have captured, from the stepwise state P at its position."""
-    if obs in ('dump_to_path', 'dump_to_path_json', 'dump_to_zip', 'dump_csv+dump_json', 'dump_json+dump_zip'):
+    if obs in ('dump_to_path', 'dump_to_path_json', 'dump_to_zip', 'dump_csv+dump_json', 'dump_json+dump_zip', 'dump_nocounters',
+               'dump_zip_nocounters_json'):
         rs = core.materialise(core.from_state(P), via='results')
         return ('package', P.names(), [rows_norm(r) for r in rs.rows])
     if obs in ('stream', 'checkpoint'):
@@ -421,7 +430,7 @@ def run_prefix(task):
                         continue
                     seen.add(sig)
                     out['viol'].append((sig, what, {'prefix': task['prefix'], 'suffix': suffix, 'obs': obs, 'pos': pos}))
-                if suffix in ([], ['add_field'], ['filter_some']):
+                if suffix in ([], ['add_field']):
                     # the same Flow object executed again: the observer must capture the second execution as completely
                     case = {'prefix': prefix, 'suffix': suffix, 'obs': obs, 'pos': pos, 'twice': True}
                     viol, outcome, nontrivial = check_case(case)
@@ -448,10 +457,16 @@ def prefix_states(depth):
     inits = dict(inits)
     inits['P5'] = core.mkstate([('r1', [('a', 'integer'), ('b', 'string')], []),
                                 ('r2', [('a', 'integer'), ('c', 'string')], [{'a': 1, 'c': 'p'}, {'a': 3, 'c': 'q'}, {'a': 1, 'c': 'r'}])])
-    for name in ('P0', 'P1', 'P5'):
+    # resource paths with dots that are not extensions (dated / versioned file names differing only after the first dot)
+    p6 = copy.deepcopy(inits['P0'])
+    for r, pth in zip(p6.desc['resources'], ('sales.2019.csv', 'sales.2020.csv', 'sales.v1.0')):
+        r['path'] = pth
+    inits['P6'] = State(p6.desc, p6.rows)
+    for name in ('P0', 'P1', 'P5', 'P6'):
         st = inits[name]
         states[st.key()] = st
-        frontier.append(st)
+        if name != 'P6':          # P6 differs from P0 in its paths only: its successors add nothing
+            frontier.append(st)
     for _ in range(depth):
         nxt = []
         for st in frontier:
